@@ -3,7 +3,7 @@ from hypothesis import assume, strategies as st
 
 from vlib import jasm_io
 from vlib.gen_listing import OPERANDS, listings, instruction_body, norm_view, att_view
-from vlib.gen_pattern import describe_inst, describe_operand, lit_ok, random_item, substr
+from vlib.gen_pattern import describe_inst, describe_operand, is_hex_literal_name, lit_ok, random_item, substr
 from vlib.model import stream_record
 from vlib.refmatch import Ref
 from vlib.render import render
@@ -20,13 +20,13 @@ RULE = (
     "or a single-mutation near miss of one; distinct by canonical JSON hash of (rule, listing)."
 )
 ASSUMPTIONS = [
-    "literal names are [A-Za-z0-9%:_-]+, not starting with $ & @, not 'times', operands not of the Intel hex spelling <hex>h",
+    "literal names are [A-Za-z0-9%:_-]+, not starting with $ & @, not 'times'; an operand name of the spelling <hex>h is read as the hexadecimal literal 0x<hex> (the repository's unit tests pin A3h -> 0xA3) and is generated only in a labelled class",
     "operand normal forms of the listing vocabulary come from a hand-written table (checked against JASM in C09)",
     "listings <= 14 instructions, rules <= 4 items, <= 3 operand names per item",
 ]
 MUTATORS = [
     "none", "none", "none", "op-rotate", "op-drop-first", "mn-as-op", "op-as-mn", "insert", "delete", "swap",
-    "hexword", "later-operand", "next-inst", "too-many-ops", "extra-trailing-op", "edge-window", "unrelated",
+    "hexword", "later-operand", "next-inst", "too-many-ops", "extra-trailing-op", "edge-window", "unrelated", "hex-h-name",
 ]
 FLOORS = {"expect=found": 0.30, "near-miss": 0.30}
 for _m in set(MUTATORS) - {"none", "unrelated"}:
@@ -158,6 +158,30 @@ def cases(draw):
                 o = draw(st.sampled_from(OPERANDS))
                 L[k][2] = L[k][2] + [o[0]]
                 L[k][3] = L[k][3] + [o[1]]
+    elif mut == "hex-h-name":
+        # an immediate described in the DSL's <hex>h spelling (10h = 0x10); the item's remaining operands are described as usual,
+        # so the hex name must stay confined to its own operand field
+        k = draw(st.integers(0, len(pattern) - 1))
+        v = draw(st.sampled_from(["0x1", "0x10", "0x100", "0x8", "0xa", "0xab", "0x18"]))
+        other = draw(st.sampled_from(OPERANDS))
+        rec = L[i + k]
+        if draw(st.booleans()):
+            rec[2], rec[3] = ["$" + v, other[0]], [v, other[1]]
+        else:
+            rec[2], rec[3] = [other[0], "$" + v], [other[1], v]
+        asked = draw(st.sampled_from(["0x1", "0x10", "0x100", "0x8", "0xa", "0xab", v, v]))
+        it = pattern[k]
+        name = it if not isinstance(it, dict) else list(it)[0]
+        ops = []
+        for q, o in enumerate(rec[3]):
+            if o == v:
+                ops.append(asked[2:] + "h")
+            else:
+                d = describe_operand(draw, o)
+                if d is None:
+                    break
+                ops.append(d)
+        pattern[k] = {name: ops}
     elif mut == "unrelated":
         pattern = [random_item(draw) for _ in range(draw(st.integers(1, 3)))]
     # re-address so that addresses stay strictly increasing and unique
@@ -170,7 +194,7 @@ def cases(draw):
         assume(lit_ok(str(name), operand=False))
         if isinstance(it, dict):
             for o in it[name]:
-                assume(lit_ok(str(o)))
+                assume(lit_ok(str(o)) or (mut == "hex-h-name" and is_hex_literal_name(str(o))))
     return {"mut": mut, "listing": L, "pattern": pattern, "false_as_absent": draw(st.booleans())}
 
 
